@@ -96,3 +96,78 @@ package cache
 //@   requires bshape(c)
 //@   nopanic
 //@   ensures served_verified: result != nil ==> result.Name == name && hashok(sliceid(result.Data), name)
+
+// ---- key LRU cache (property C13, second half) ---------------------------------------------------------
+//
+// lruOrder lists the keys of entries, oldest first. Lock invariant, proved at every Unlock: every
+// listed key is stored, no key is listed twice, there are as many listed keys as stored ones, and
+// the number of keys never exceeds the configured size. (Together the first three say that lruOrder
+// lists exactly the stored keys; that last step - a finite injection between sets of equal size is
+// onto - is used as an assumed lemma where Delete and moveToEnd look a stored key up in the list.)
+//@ specfunc lruok(c *LRUCache) bool = c != nil && c.entries != nil && len(c.lruOrder) >= 0 && len(c.lruOrder) == len(c.entries) && (forall i int :: 0 <= i && i < len(c.lruOrder) ==> (c.lruOrder[i] in c.entries)) && (forall i int, j int :: 0 <= i && i < j && j < len(c.lruOrder) ==> c.lruOrder[i] != c.lruOrder[j])
+
+//@ lockinv LRUCache.mu self c guards entries, lruOrder
+//@   invariant consistent: lruok(c)
+//@   invariant bounded: len(c.entries) <= c.config.Size
+
+//@ func LRUCache.Has
+//@   requires c != nil
+//@   nopanic
+//@   ensures only_stored_keys: result ==> (key in c.entries)
+
+//@ func LRUCache.Size
+//@   requires c != nil
+//@   nopanic
+//@   ensures result == len(c.entries) && result <= c.config.Size
+
+// evict (lock held): first every expired key is dropped, then the oldest keys - the front of
+// lruOrder - until the size bound holds. Nothing is added and surviving entries are untouched.
+//@ func LRUCache.evict
+//@   held c.mu
+//@   requires lruok(c) && c.config.Size >= 1
+//@   nopanic
+//@   modifies c.lruOrder, allmem string, map c.entries
+//@   ensures consistent: lruok(c)
+//@   ensures bounded: len(c.entries) <= c.config.Size
+//@   ensures only_drops: forall k string :: (k in c.entries) ==> old(k in c.entries) && c.entries[k] == old(c.entries[k])
+//@   assert oldest_first: at builtin.delete#1 :: oldest == c.lruOrder[0]
+//@   loop 0 invariant ok: lruok(c) && 0 <= i && i <= len(c.lruOrder) && c.config.Size >= 1
+//@   loop 0 invariant only_drops: forall k string :: (k in c.entries) ==> old(k in c.entries) && c.entries[k] == old(c.entries[k])
+//@   loop 1 invariant ok: lruok(c) && c.config.Size >= 1
+//@   loop 1 invariant only_drops: forall k string :: (k in c.entries) ==> old(k in c.entries) && c.entries[k] == old(c.entries[k])
+
+// moveToEnd (lock held): the key becomes the most recently used; nothing is added or lost.
+//@ func LRUCache.moveToEnd
+//@   held c.mu
+//@   requires lruok(c) && (key in c.entries)
+//@   requires listed: exists i int :: 0 <= i && i < len(c.lruOrder) && c.lruOrder[i] == key
+//@   nopanic
+//@   modifies c.lruOrder, allmem string
+//@   ensures consistent: lruok(c)
+//@   ensures last: len(c.lruOrder) >= 1 && c.lruOrder[len(c.lruOrder) - 1] == key
+//@   loop 0 invariant scan: 0 - 1 <= rangeindex && rangeindex < len(c.lruOrder) && lruok(c) && len(c.lruOrder) == entry(len(c.lruOrder)) && (forall i int :: 0 <= i && i < len(c.lruOrder) ==> c.lruOrder[i] == entry(c.lruOrder[i])) && (forall i int :: 0 <= i && i <= rangeindex ==> c.lruOrder[i] != key)
+
+// Add: the key is stored (new or refreshed) and the bound holds afterwards.
+//@ func LRUCache.Add
+//@   requires c != nil && c.config.Size >= 1
+//@   nopanic
+//@   modifies c.lruOrder, allmem string, map c.entries
+//@   lemma_at stored_keys_are_listed: at LRUCache.moveToEnd#0 :: exists i int :: 0 <= i && i < len(c.lruOrder) && c.lruOrder[i] == key
+//@   ensures bounded: len(c.entries) <= c.config.Size
+
+// Delete: the key leaves both the map and the list.
+//@ func LRUCache.Delete
+//@   requires c != nil
+//@   nopanic
+//@   modifies c.lruOrder, allmem string, map c.entries
+//@   lemma_at stored_keys_are_listed: at builtin.delete#0 :: exists i int :: 0 <= i && i < len(c.lruOrder) && c.lruOrder[i] == key
+//@   ensures gone: !(key in c.entries)
+//@   ensures others: forall k string :: k != key ==> ((k in c.entries) <==> old(k in c.entries)) && c.entries[k] == old(c.entries[k])
+//@   loop 0 invariant scan: 0 - 1 <= rangeindex && rangeindex < len(c.lruOrder) && len(c.lruOrder) == old(len(c.lruOrder)) && (forall i int :: 0 <= i && i < len(c.lruOrder) ==> c.lruOrder[i] == old(c.lruOrder[i])) && (forall i int :: 0 <= i && i <= rangeindex ==> c.lruOrder[i] != key) && (exists i int :: 0 <= i && i < len(c.lruOrder) && c.lruOrder[i] == key)
+//@   loop 0 invariant map_state: !(key in c.entries) && len(c.entries) == old(len(c.entries)) - 1 && (forall k string :: k != key ==> ((k in c.entries) <==> old(k in c.entries)) && c.entries[k] == old(c.entries[k]))
+
+//@ func LRUCache.Clear
+//@   requires c != nil
+//@   nopanic
+//@   modifies c.entries, c.lruOrder
+//@   ensures empty: len(c.entries) == 0
